@@ -519,4 +519,40 @@ theorem domain_rule_iff (d h : List Char) (hh : ∀ c ∈ h, hostChar c = true)
       intro c hc
       exact hh c (by rw [hs']; exact List.mem_append_left _ hc)
 
+/-! ## Rule texts and the configuration file (fourth deepening) -/
+
+theorem splitLastSlash_none (l : List Char) (h : '/' ∉ l) : splitLastSlash l = none := by
+  induction l with
+  | nil => rfl
+  | cons c cs ih =>
+    have hc : c ≠ '/' := fun e => h (by simp [e])
+    have hcs : '/' ∉ cs := fun e => h (by simp [e])
+    simp [splitLastSlash, ih hcs, hc]
+
+theorem splitLastSlash_append (a b : List Char) (h : '/' ∉ b) :
+    splitLastSlash (a ++ '/' :: b) = some (a ++ ['/'], b) := by
+  induction a with
+  | nil => simp [splitLastSlash, splitLastSlash_none b h]
+  | cons c cs ih => simp [splitLastSlash, ih]
+
+/-- What the statement calls "a rule that is a regular expression", with its parts. -/
+def regexRuleText (allow : Bool) (body opts : List Char) : List Char :=
+  (if allow then ['@', '@'] else []) ++ '/' :: body ++ '/' :: opts
+
+/-- Declarative reading of the fragment: the name is cut into one non-empty block per item (one character,
+or one or more for an item with `+`), every character of a block matching the item's atom. -/
+inductive RxMatches : List RxItem → List Char → Prop
+  | nil : RxMatches [] []
+  | one (it : RxItem) (its : List RxItem) (c : Char) (h : List Char) :
+      it.atom.matches c = true → RxMatches its h → RxMatches (it :: its) (c :: h)
+  | more (it : RxItem) (its : List RxItem) (c : Char) (h : List Char) :
+      it.plus = true → it.atom.matches c = true → RxMatches (it :: its) h → RxMatches (it :: its) (c :: h)
+
+/-- What an entry of `blocked_client_subnets` says: a bare address names that client, `addr/len` the subnet. -/
+def YamlCovers (y : YamlNet) (a : Addr) : Prop :=
+  match y.bits with
+  | none => a = ⟨y.is4, y.val⟩
+  | some b => InSubnet ⟨y.is4, y.val, b⟩ a
+
+
 end Agd.Access
